@@ -675,6 +675,23 @@ func (ev *evaluator) call(fr *frame, e *ast.CallExpr) []value {
 		return str1(strings.ToLower)
 	case "strings.TrimSpace":
 		return str1(strings.TrimSpace)
+	case "strings.TrimPrefix", "strings.TrimSuffix", "strings.TrimLeft", "strings.TrimRight", "strings.Trim":
+		a, b := argv(0), argv(1)
+		if a.isStr() && b.isStr() {
+			switch full {
+			case "strings.TrimPrefix":
+				return []value{cstr(strings.TrimPrefix(a.str(), b.str()))}
+			case "strings.TrimSuffix":
+				return []value{cstr(strings.TrimSuffix(a.str(), b.str()))}
+			case "strings.TrimLeft":
+				return []value{cstr(strings.TrimLeft(a.str(), b.str()))}
+			case "strings.TrimRight":
+				return []value{cstr(strings.TrimRight(a.str(), b.str()))}
+			default:
+				return []value{cstr(strings.Trim(a.str(), b.str()))}
+			}
+		}
+		return []value{unknown("%s of non-constants", full)}
 	case "strings.EqualFold":
 		a, b := argv(0), argv(1)
 		if a.isStr() && b.isStr() {
